@@ -191,6 +191,10 @@ def check_c03(prog, rep, tier, cfg):
     orch.unchanged_skip_is_exact(prog, rep, "C03.b")
     orch.c16e(prog, AliasReport(rep, [("C16.e", r"^check_formatting:table|compares-input-with-output|^anchor:check", "C03.b")]))
     c03c(prog, rep)
+    # C03.l — the file pasfmt has just written holds exactly the encoded output: the length the file is cut to is the number of bytes
+    # write_file reports, taken after the write succeeded.  A length computed from the text (UTF-8 bytes) leaves NUL or stale bytes behind
+    # the formatted text under a single-byte encoding, and the next run sees a file that is not its own output (shared with C16.b)
+    orch.c16b(prog, rep, "C03.l")
     # C03.d — second wrapping pass measures what the first pass left
     layout.zeroing_after_wrapping(prog, rep, "C03.d")
     layout.rewrite_is_reported(prog, rep, "C03.d")
